@@ -28,7 +28,7 @@ REQUIRED = {'class:valid': 0.3, 'class:invalid': 0.1, 'class:boundary': 0.03, 't
 
 AMU = 1.66053906892e-27
 FILL = ['H2', 'He', 'N2', 'Ar', 'CO2']
-TRACE = ['H2O', 'CH4', 'CO', 'NH3', 'HCN', 'C2H2', 'SO2', 'TiO', 'VO', 'Na', 'K', 'O2', 'NO', 'H2S']
+TRACE = ['H2O', 'C10H8', 'CH4', 'CO', 'NH3', 'C4H10', 'HCN', 'C2H2', 'SO2', 'TiO', 'VO', 'Na', 'K', 'O2', 'NO', 'H2S', 'C12H26']
 TYPES = ['twolayer', 'constant', 'power', 'twopoint', 'array']
 
 
@@ -277,4 +277,28 @@ def check(case):
             out.fail('active-split@%s,rows' % mode, 'active/inactive rows are not the rows of the mixture')
     types = {g['type'] for g in case['traces']}
     out.nontrivial = bool(len(types) >= 2 and nf >= 2)
+    # ---- history: the same chemistry object after its fill ratios were changed through their
+    # fitting parameters (what a retrieval does) must again be a valid mixture with the new ratios
+    if nf > 1 and cls == 'valid':
+        out.cls('refit-fill-ratio')
+        fp = chem.fitting_parameters()
+        new_ratios = []
+        try:
+            for i in range(1, nf):
+                pname = '%s_%s' % (case['fill'][i], case['fill'][0])
+                r = case['ratios'][i - 1] * (2.0 + i) if case['ratios'][i - 1] < 0.5 else case['ratios'][i - 1] / (2.0 + i)
+                cut(out, 'fill-ratio-parameter', fp[pname][3], r)
+                new_ratios.append(r)
+            with np.errstate(all='ignore'):
+                cut(out, 'initialize_chemistry@again', chem.initialize_chemistry, nl, T, P, None)
+        except CutError:
+            return out
+        mix2 = np.asarray(chem.mixProfile, dtype=float)
+        out.applies('refit-valid-mixture')
+        if not close(mix2.sum(axis=0), np.ones(nl), rtol=1e-12):
+            out.fail('refit-valid-mixture@sums', 'after changing the fill ratios the columns sum to %r' % float(mix2.sum(axis=0)[0]))
+        for i in range(1, nf):
+            if not close(mix2[i], new_ratios[i - 1] * mix2[0], rtol=1e-12, atol=1e-300):
+                out.fail('refit-valid-mixture@ratios', '%s/%s != %r after the change' % (case['fill'][i], case['fill'][0], new_ratios[i - 1]))
+                break
     return out
